@@ -160,7 +160,26 @@ def run_property(prop, tier, seed, only=None, keep=False, jobs=None, no_replay=F
     scratches = []
     inconclusive = []
     try:
-        for variant, vh in by_variant.items():
+        nworkers = jobs or int(os.environ.get("VERIF_JOBS", "12"))
+        pool = ThreadPoolExecutor(max_workers=nworkers)
+
+        def work(args):
+            h, crate, scratch, tdir = args
+            gb = gate.acquire(h.get("mem_gb", 6))
+            try:
+                tmo = h.get("timeout", 300)
+                r = pdbv.run_one(h, crate, scratch, tdir, tmo, h.get("mem_limit_gb", h.get("mem_gb", 6) * 2 + 8))
+                r["h"] = h
+                r["scratch"] = scratch
+                r["crate"] = crate
+                pdbv.log("[%s]   %-55s %-12s %6.1fs  clauses=%s" % (prop, h["name"].split("::")[-1], r.get("verdict"), r["wall_s"], r["stats"].get("clauses")))
+                return r
+            finally:
+                gate.release(gb)
+
+        def run_variant(item):
+            # the build variants (plain / mapsub / iosub) are prepared concurrently; their harness runs share one worker pool
+            variant, vh = item
             scratch, crate = pdbv.make_scratch(variant)
             scratches.append(scratch)
             pdbv.log("[%s] scratch %s (%s), %d harnesses" % (prop, scratch, variant, len(vh)))
@@ -168,29 +187,18 @@ def run_property(prop, tier, seed, only=None, keep=False, jobs=None, no_replay=F
             if rc != 0:
                 errs = [l for l in out.splitlines() if l.startswith("error")]
                 pdbv.log(out[-4000:])
-                inconclusive.append({"harness": "*build*", "why": "build failed: " + "; ".join(errs[:5])})
-                continue
-            pdbv.log("[%s] warm build %.0fs" % (prop, w))
+                inconclusive.append({"harness": "*build* (%s)" % variant, "why": "build failed: " + "; ".join(errs[:5])})
+                return []
+            pdbv.log("[%s] warm build (%s) %.0fs" % (prop, variant, w))
             # heavy first
             vh_sorted = sorted(vh, key=lambda h: -h.get("timeout", 300))
-            nworkers = jobs or int(os.environ.get("VERIF_JOBS", "12"))
+            return [pool.submit(work, (h, crate, scratch, tdir)) for h in vh_sorted]
 
-            def work(h):
-                gb = gate.acquire(h.get("mem_gb", 6))
-                try:
-                    tmo = h.get("timeout", 300)
-                    r = pdbv.run_one(h, crate, scratch, tdir, tmo, h.get("mem_limit_gb", h.get("mem_gb", 6) * 2 + 8))
-                    r["h"] = h
-                    r["scratch"] = scratch
-                    r["crate"] = crate
-                    pdbv.log("[%s]   %-55s %-12s %6.1fs  clauses=%s" % (prop, h["name"].split("::")[-1], r.get("verdict"), r["wall_s"], r["stats"].get("clauses")))
-                    return r
-                finally:
-                    gate.release(gb)
-
-            with ThreadPoolExecutor(max_workers=nworkers) as ex:
-                for r in ex.map(work, vh_sorted):
-                    results.append(r)
+        with ThreadPoolExecutor(max_workers=max(1, len(by_variant))) as vex:
+            futs = [f for fl in vex.map(run_variant, list(by_variant.items())) for f in fl]
+        for f in futs:
+            results.append(f.result())
+        pool.shutdown()
 
         # ---- classification
         violations = []   # (harness result, failed checks)
